@@ -57,12 +57,22 @@ def nthVariant : Variants → Nat → Option (String × Fields)
   | .cons tag fs _, 0 => some (tag, fs)
   | .cons _ _ rest, k + 1 => nthVariant rest k
 
+/-- the content of an `Option` body: `None` is the body `{ Extant }` (and `{}`), so `Some(x)` must never be written
+as an empty or `{ Extant }` body: no unit, no nested `Option`, no collection -/
+def optBodyOK (names : List String) : Ty → Bool
+  | .int _ | .bool | .text => true
+  | .struct tag _ => !names.contains tag
+  | .enum vs => (variantTags vs).all fun t => !names.contains t
+  | _ => false
+
 /-- delegated body position, `names` = the attribute fields of the container: the first attribute the body
 contributes (the tag of a struct, of any variant of an enum) must not be one of them -/
 def bodySafe (names : List String) : Ty → Bool
   | .int _ | .bool | .text | .unit | .list _ => true
   | .struct tag _ => !names.contains tag
   | .enum vs => (variantTags vs).all fun t => !names.contains t
+  -- `None` is the body `{ Extant }`; `Some(x)` must not be written as an empty or `{ Extant }` body
+  | .opt t => optBodyOK names t
   | _ => false
 
 /-- types a `#[form(skip)]` field may have in the model (their `Default` is known) -/
